@@ -255,6 +255,7 @@ def run(P, R, tier):
     samehint_rule(P, R)
     replacegrow_rule(P, R)
     phaselookup_rule(P, R)
+    shiftdir_rule(P, R)
     stdthrow_census(P, R, reach)
 
 
@@ -1878,3 +1879,29 @@ def phaselookup_rule(P, R):
                             "unknown phase crashes the host process when it is used" % (var, line, derefs[0]), file=f["file"], line=derefs[0], function=f["q"])
     if n < 8:
         R.anchor_missing(RULE, "only %d phase_bsearch results found in step.cpp" % n)
+
+
+def shiftdir_rule(P, R):
+    """"the call returns normally": transport() moves the column with loops of the form `for (i = last_c; i != first_c - ishift; i -=
+    ishift)` - an inequality test that is met only when the step divides the distance.  ishift is read from the input (`-shifts n dir`,
+    `-flow_direction`), so every assignment of ishift from scanned text must be followed, in the reader, by a range test that confines it
+    to -1 .. 1 (an input error otherwise); assignments of the literals -1, 0, 1 need none."""
+    RULE = "C08.shiftdir"
+    R.rule(RULE, "read_transport: ishift scanned from the input is confined to -1 .. 1 before transport() steps its `i != end` loops with it", minimum=1)
+    f = P.one("Phreeqc::read_transport")
+    scans = [c for c in T.calls(f["body"]) if T.callee_name(c) == "sscanf" and any(
+        T.is_node(T.strip_casts(a)) and T.strip_casts(a)[0] == "Un" and T.strip_casts(a)[2] == "&" and "ishift" in T.text(T.strip_casts(a)[3]) for a in c[4][2:])]
+    tr = P.one("Phreeqc::transport")
+    neq = [lp for lp in T.walk(tr["body"]) if lp[0] == "For" and T.is_node(lp[3]) and lp[3][0] == "Bin" and lp[3][2] == "!=" and "ishift" in T.text(lp[3][4], -40)]
+    if not scans or not neq:
+        R.anchor_missing(RULE, "ishift scans in read_transport: %d, `!=` loops stepped by ishift in transport: %d" % (len(scans), len(neq)))
+        return
+    for c in scans:
+        inst = "scan@%d" % (c[1] - f["line"])
+        tests = [x for x in T.walk(f["body"]) if x[0] == "If" and c[1] <= x[1] <= c[1] + 6 and "ishift" in T.text(x[2], -40)
+                 and any(y[0] == "Bin" and y[2] in ("<", ">", "<=", ">=") for y in T.walk(x[2])) and any(T.callee_name(k) == "error_msg" for k in T.calls(x[3]))]
+        if tests:
+            R.ok(RULE, inst, "range test at line %d; %d loops in transport() rely on it" % (tests[0][1], len(neq)))
+        else:
+            R.violation(RULE, inst, "ishift is scanned from the input (line %d) without a range test: `-shifts n 2` makes the shift loop `i != first_c - ishift; i -= ishift` of "
+                        "transport() (line %d) run past its end value - the call does not return" % (c[1], neq[0][1]), file=f["file"], line=c[1], function=f["q"])
